@@ -25,6 +25,16 @@ static void load_kf(Ctx& ctx, const std::string& path)
   }
 }
 
+// delete whole steps of a failing history while it still fails, then shrink the remaining integers
+static Args minimize_case(Ctx& ctx, const Clause& cl, Args a)
+{
+  if (!strcmp(cl.id, "C17.hist")) {
+    bool progress = true;
+    while (progress && a.size() > 3) { progress = false;
+      for (size_t i = 1; i + 1 < a.size(); i += 2) { Args t = a; t.erase(t.begin() + (long)i, t.begin() + (long)i + 2); Failure k1 = ctx.fail_first, k2 = ctx.fail_last; if (!ctx.evaluate(cl, t)) { a = t; progress = true; break; } ctx.fail_first = k1; ctx.fail_last = k2; } }
+  }
+  return shrink_ints(ctx, cl, a);
+}
 static void run_rc(Ctx& ctx, const Clause& cl)
 {
   uint64_t seed = mix64(ctx.seed * 1000003ull + std::hash<std::string>()(cl.id) + (uint64_t)ctx.worker * 7919ull);
@@ -84,6 +94,12 @@ int main(int argc, char** argv)
   g_dc.phi = ctx.cuts[0].phi; g_dc.pidiv2 = ctx.cuts[0].pidiv2; g_dc.pidiv4 = ctx.cuts[0].pidiv4;
   if (!kf.empty()) load_kf(ctx, kf);
 
+  if (cmd == "minimize") {   // fmcheck minimize <clause> --args a,b,c <cut.so>... : prints the minimised failing arguments (or the input if it passes)
+    Args a; { std::istringstream ss(argstr); std::string t; while (std::getline(ss, t, ',')) if (!t.empty()) a.push_back((int64_t)strtoll(t.c_str(), 0, 10)); }
+    if (ctx.evaluate(*cl, a)) { printf("%s\n", args_json(a).c_str()); return 0; }
+    Args s = minimize_case(ctx, *cl, a); if (ctx.evaluate(*cl, s)) s = a;
+    printf("%s\n", args_json(s).c_str()); return 0;
+  }
   if (cmd == "replay") {
     ctx.replay_mode = true; Args a; { std::istringstream ss(argstr); std::string t; while (std::getline(ss, t, ',')) if (!t.empty()) a.push_back((int64_t)strtoll(t.c_str(), 0, 10)); }
     bool ok = ctx.evaluate(*cl, a);
@@ -136,12 +152,7 @@ int main(int argc, char** argv)
     run_rc(ctx, *cl);
     // histories: rapidcheck shrinks the words (length, operands); finish by deleting whole steps while the
     // case still fails, so that the reported history contains only the steps that matter
-    if (ctx.fail_last.set && !strcmp(cl->id, "C17.hist")) {
-      Args a = ctx.fail_last.args; bool progress = true;
-      while (progress && a.size() > 3) { progress = false;
-        for (size_t i = 1; i + 1 < a.size(); i += 2) { Args t = a; t.erase(t.begin() + (long)i, t.begin() + (long)i + 2); Failure k1 = ctx.fail_first, k2 = ctx.fail_last; if (!ctx.evaluate(*cl, t)) { a = t; progress = true; break; } ctx.fail_first = k1; ctx.fail_last = k2; } }
-      Args s = shrink_ints(ctx, *cl, a); (void)s;
-    }
+    if (ctx.fail_last.set && !strcmp(cl->id, "C17.hist")) { Args s = minimize_case(ctx, *cl, ctx.fail_last.args); (void)s; }
   }
   else { SweepInfo si = cl->sweep(ctx, *cl); exhaustive = si.exhaustive; note = si.note;
          if (ctx.fail_last.set) { Args s = shrink_ints(ctx, *cl, ctx.fail_last.args); (void)s; } }
